@@ -12,7 +12,8 @@ from .. import astq
 from ..events import evs, outcome_name, run_function
 from ..interp import AV, BASE_TOP, EXT_TOP, UNK, BaseRule, Out, const, exc
 from ..model import AnalysisError
-from ..terms import T, TermRule, destruct, is_opaque, term_of, tv
+from ..rows import ARITH, helper_closure, within_vocabulary
+from ..terms import T, TermRule, destruct, is_opaque, subterms, term_of, tv
 
 TO = "urllib3.util.timeout"
 TIMEOUT = f"{TO}.Timeout"
@@ -21,6 +22,8 @@ CN = "urllib3.connection"
 POOL = f"{CP}.HTTPConnectionPool"
 DEFAULT = AV("const", ("enum", "_DEFAULT_TIMEOUT"), truth=True, none=False)
 DEFAULT_T = repr(DEFAULT.val)
+# modelled (analysed on their own rows, kept as terms at their call sites)
+STOP19 = ("_validate_timeout", "_get_timeout", "_raise_timeout", "_make_request", "_get_conn", "_put_conn", "_new_conn", "_prepare_proxy", "_validate_conn")
 
 
 class TRule(TermRule):
@@ -46,6 +49,10 @@ class TRule(TermRule):
     def call_hook(self, it, st, node, recv, pos, kw):
         f = node.func
         text = ast.unparse(f)
+        q0 = it.resolve_callee(node, recv)
+        if q0 in it.inline:
+            return None  # a private helper: interpreted in place
+        pos, kw = self._canon_args(it, node, recv, q0, pos, kw)
         args = [term_of(p) for p in pos]
         kws = [f"{k}={term_of(v)}" for k, v in sorted(kw.items())]
         if isinstance(f, ast.Attribute) and recv is not None:
@@ -128,7 +135,7 @@ def run(ctx):
     R6 = ctx.rule("C19-R6", "a request-level timeout fully overrides the pool's: the pool's Timeout is used only for the default sentinel", "E10 effect rows of _get_timeout")
     gt = m.method(POOL, "_get_timeout")
     pt = "p:" + gt.params()[0]
-    outs, it = run_function(m, gt, TRule(), POOL)
+    outs, it = run_function(m, gt, TRule(), POOL, inline=frozenset(set(helper_closure(m, [gt], stop=STOP19)) - {gt.qual}))
     ctx.states += it.budget.steps
     rows = [o for o in _rows(outs) if o.kind == "return"]
     ctx.sites(R1, len(rows), 3, "returning rows of _get_timeout")
@@ -166,7 +173,7 @@ def run(ctx):
         def setattr(self, it, st, target, base, av):
             st.ts["ev"] = st.ts.get("ev", ()) + (("store", ast.unparse(target.value), target.attr, term_of(av)),)
 
-    outs, it = run_function(m, cl, StoreRule(), TIMEOUT)
+    outs, it = run_function(m, cl, StoreRule(), TIMEOUT, inline=frozenset(set(helper_closure(m, [cl], stop=STOP19)) - {cl.qual}))
     crow = [o for o in _rows(outs) if o.kind == "return"]
     want = T("new:Timeout", "connect=self._connect", "read=self._read", "total=self.total")
     ok = bool(crow) and all(term_of(o.val) == want and not evs(o) for o in crow)
@@ -180,7 +187,7 @@ def run(ctx):
                if isinstance(x, ast.Attribute) and isinstance(x.ctx, (ast.Store, ast.Del)) and x.attr == "_start_connect" and n_ not in ("__init__",)]
     ctx.ob(R1, TIMEOUT, f"only start_connect sets the start stamp ({[w[0] for w in writers]})", [w[0] for w in writers] == ["start_connect"])
     ff = m.method(TIMEOUT, "from_float")
-    outs, it = run_function(m, ff, TRule(), TIMEOUT)
+    outs, it = run_function(m, ff, TRule(), TIMEOUT, inline=frozenset(set(helper_closure(m, [ff], stop=STOP19)) - {ff.qual}))
     frow = [o for o in _rows(outs) if o.kind == "return"]
     pf = "p:" + ff.params()[0]
     ok = bool(frow) and all(term_of(o.val) == T("new:Timeout", f"connect={pf}", f"read={pf}") for o in frow)
@@ -194,7 +201,7 @@ def run(ctx):
             if isinstance(target.value, ast.Name) and target.value.id == "self":
                 st.ts["ev"] = st.ts.get("ev", ()) + (("store", target.attr, term_of(av)),)
 
-    outs, it = run_function(m, init, InitRule(), TIMEOUT)
+    outs, it = run_function(m, init, InitRule(), TIMEOUT, inline=frozenset(set(helper_closure(m, [init], stop=STOP19)) - {init.qual}))
     irows = [o for o in _rows(outs) if o.kind != "raise"]
     ctx.sites(R2, len(irows), 1, "normal rows of Timeout.__init__")
     for o in irows[:1]:
@@ -208,7 +215,7 @@ def run(ctx):
     ctx.ob(R2, TIMEOUT, "the three fields are only set by the constructor", not others, str(others))
     vt = m.method(TIMEOUT, "_validate_timeout")
     pv = "p:" + vt.params()[0]
-    outs, it = run_function(m, vt, TRule(), TIMEOUT)
+    outs, it = run_function(m, vt, TRule(), TIMEOUT, inline=frozenset(set(helper_closure(m, [vt], stop=STOP19)) - {vt.qual}))
     ctx.states += it.budget.steps
     seen = set()
     for o in _rows(outs):
@@ -250,7 +257,7 @@ def run(ctx):
     if ctp is None or rtp is None:
         raise AnalysisError("connect_timeout / read_timeout properties not found")
     C, Tt, Rd = "self._connect", "self.total", "self._read"
-    outs, it = run_function(m, ctp, TRule(), TIMEOUT)
+    outs, it = run_function(m, ctp, TRule(), TIMEOUT, inline=frozenset(set(helper_closure(m, [ctp], stop=STOP19)) - {ctp.qual}))
     ctx.states += it.budget.steps
     seen = set()
     n = 0
@@ -282,11 +289,12 @@ def run(ctx):
             ok, why = False, f"a value is returned without deciding whether total / connect are set (total None={t_none}, connect unset={c_unset})"
         ctx.ob(R3, ctp.qual, f"connect_timeout -> {rt} [total None={t_none}, connect unset={c_unset}]", ok, "" if ok else why + ": the connect phase may wait longer than min(connect, total)", witness=o.st.witness(), node=ctp.node)
     ctx.sites(R3, n, 3, "rows of connect_timeout")
-    outs, it = run_function(m, rtp, TRule(raising={"get_connect_duration": "urllib3.exceptions.TimeoutStateError"}), TIMEOUT)
+    outs, it = run_function(m, rtp, TRule(raising={"get_connect_duration": "urllib3.exceptions.TimeoutStateError"}), TIMEOUT, inline=frozenset(set(helper_closure(m, [rtp], stop=STOP19)) - {rtp.qual}))
     ctx.states += it.budget.steps
     E = T("sub", Tt, T("self.get_connect_duration"))
     seen = set()
     n = 0
+    foreign_idiom = None
     for o in _rows(outs):
         if o.kind != "return":
             continue
@@ -298,6 +306,17 @@ def run(ctx):
             continue
         seen.add(key)
         n += 1
+        VOC = ARITH | {"self.get_connect_duration", "self.resolve_default_timeout", "Timeout.resolve_default_timeout"}
+        if foreign_idiom is None:
+            foreign_idiom = any(not within_vocabulary(_norm(term_of(o2.val)), VOC) for o2 in _rows(outs) if o2.kind == "return")
+        if foreign_idiom:
+            # computed in a way the rule does not recognise (DESIGN 13.2): provenance only - the value depends on total, read and
+            # the elapsed time alone, and whenever a total is set the remaining budget total - elapsed takes part
+            atoms = {x for x in subterms(rt) if destruct(x)[0] is None and x.startswith(("self.", "p:"))}
+            okp = atoms <= {Tt, Rd} and (t_unset is not False or E in set(subterms(rt)) or rt in (Rd, "0"))
+            ctx.ob(R3, rtp.qual, f"read_timeout computed by an unrecognised idiom [total unset={t_unset}, read unset={r_unset}]: depends only on total, read and the elapsed time (provenance only)", okp,
+                   "" if okp else f"{rt[:100]}", witness=o.st.witness(), node=rtp.node)
+            continue
         if t_unset is True:
             ok = rt in (T("self.resolve_default_timeout", Rd), T("Timeout.resolve_default_timeout", Rd), Rd)
             why = "without a total the response wait is the configured read value"
@@ -314,7 +333,7 @@ def run(ctx):
                "" if ok else why + ": the response wait is not clamped to [0, min(read, total - elapsed)]", witness=o.st.witness(), node=rtp.node)
     ctx.sites(R3, n, 3, "rows of read_timeout")
     gd = m.method(TIMEOUT, "get_connect_duration")
-    outs, it = run_function(m, gd, TRule(), TIMEOUT)
+    outs, it = run_function(m, gd, TRule(), TIMEOUT, inline=frozenset(set(helper_closure(m, [gd], stop=STOP19)) - {gd.qual}))
     grow = [o for o in _rows(outs) if o.kind == "return"]
     ok = bool(grow) and all(term_of(o.val) == T("sub", T("time.monotonic"), "self._start_connect") for o in grow)
     ctx.ob(R3, gd.qual, "elapsed = monotonic() - start stamp", ok, "" if ok else str([term_of(o.val) for o in grow]))
@@ -334,6 +353,7 @@ def run(ctx):
 
     modelled = {"_validate_conn", "_get_timeout", "_raise_timeout", "_make_request", "urlopen", "_prepare_proxy", "_new_conn", "_get_conn", "_put_conn"}
     inline = {f.qual for n_, f in m.cls(POOL).methods.items() if n_ not in modelled and hot(f)}
+    inline |= set(helper_closure(m, [mr], stop=tuple(modelled))) - {mr.qual}
     ctx.extra["c19_inlined_helpers"] = sorted(inline)
 
     class MR(BaseRule):
@@ -352,7 +372,8 @@ def run(ctx):
             if t == "self._get_timeout":
                 return [Out("normal", st, AV("obj", "timeout_obj", truth=True, none=False))]
             if t == "Timeout.resolve_default_timeout":
-                return [Out("normal", st, AV("unk", tags=frozenset(pos[0].tags | {"resolved"}) if pos else frozenset()))]
+                a0 = pos[0] if pos else (next(iter(kw.values())) if kw else None)
+                return [Out("normal", st, AV("unk", sym=a0.sym if a0 is not None else None, tags=frozenset(a0.tags | {"resolved"}) if a0 is not None else frozenset()))]
             q = it.resolve_callee(node, recv)
             if q and it.m.is_exception_class(q):
                 return [Out("normal", st, AV("exc", it.m.norm(q), truth=True, none=False))]
@@ -485,7 +506,7 @@ def run(ctx):
     R7 = ctx.rule("C19-R7", "socket timeouts surface as ReadTimeoutError: socket.timeout and EAGAIN/EWOULDBLOCK map to ReadTimeoutError", "E10 effect rows of _raise_timeout")
     rt_ = m.method(POOL, "_raise_timeout")
     pe = "p:" + rt_.params()[0]
-    outs, it = run_function(m, rt_, TRule(), POOL)
+    outs, it = run_function(m, rt_, TRule(), POOL, inline=frozenset(set(helper_closure(m, [rt_], stop=STOP19)) - {rt_.qual}))
     ctx.states += it.budget.steps
     seen = set()
     n_sock = n_errno = 0
@@ -496,6 +517,10 @@ def run(ctx):
                 is_sock = v
         has = o.st.facts.get(T("hasattr", pe, "'errno'"), (None, None))[0]
         blocking = o.st.ts.get(("cmp", f"{pe}.errno", "in", "g:_blocking_errnos"))
+        ga = o.st.ts.get(("cmp", T("getattr", pe, "'errno'", "None"), "in", "g:_blocking_errnos"))
+        if blocking is None and ga is not None:
+            # getattr(err, "errno", None) in <set of ints>: true only for an error that has a blocking errno
+            blocking, has = ga, (True if ga else has)
         name = outcome_name(o)
         key = (is_sock, has, blocking, name)
         if key in seen:
